@@ -133,7 +133,7 @@ func c37run(c c37case) (step, detail string) {
 	sid := loadIdent(sb, "a")
 	opts = append(opts, server.PrivateKey(sid.Key), server.Certificate(sid.Cert))
 	var rw *ua.NodeID
-	_, url, stop, err := startServer(opts, func(s *server.Server) {
+	srvObj, url, stop, err := startServer(opts, func(s *server.Server) {
 		ns := server.NewNodeNameSpace(s, "verif")
 		s.AddNamespace(ns)
 		n := ns.AddNewVariableStringNode("rw_int32", int32(5))
@@ -148,9 +148,12 @@ func c37run(c c37case) (step, detail string) {
 	ctx, cancel := context.WithTimeout(context.Background(), watchdog)
 	defer cancel()
 
-	eps, err := opcua.GetEndpoints(ctx, url)
-	if err != nil {
-		return "GetEndpoints", err.Error()
+	// The endpoints the server advertises. They are taken from the server object: a server only opens
+	// secure channels with the security settings it enabled (C30), so discovery over an unsecured
+	// channel is not available unless None/None is enabled.
+	eps := advertised(srvObj, url)
+	if len(eps) == 0 {
+		return "GetEndpoints", "the server advertises no endpoint for " + url
 	}
 	var ep *ua.EndpointDescription
 	for _, e := range eps {
